@@ -286,6 +286,25 @@ func reuseDecode(r *sim.Rand) {
 		reuseExperiment("MACCommand", "", func() interface{} { return &lorawan.MACCommand{} }, up, b1, b2)
 		return
 	}
+	if r.Intn(12) == 0 {
+		// a MACCommand that decoded a request then decodes the answer of the same
+		// CID (the other direction), and the other way round
+		up := r.Intn(2) == 0
+		var pairs [][2]*spec.CmdDesc
+		for _, d := range spec.DescsDir(up) {
+			if o := spec.Desc(!up, d.CID); o != nil && (d.Size > 0 || o.Size > 0) {
+				pairs = append(pairs, [2]*spec.CmdDesc{o, d})
+			}
+		}
+		if len(pairs) > 0 {
+			pr := pairs[r.Intn(len(pairs))]
+			b1 := spec.EncodeStreamSpec([]spec.Cmd{pr[0].GenCmd(r)})
+			b2 := spec.EncodeStreamSpec([]spec.Cmd{pr[1].GenCmd(r)})
+			simrt.Count(cCrossDir)
+			reuseExperimentDir("MACCommand", "", func() interface{} { return &lorawan.MACCommand{} }, !up, up, b1, b2)
+			return
+		}
+	}
 	if r.Intn(2) == 0 {
 		t := rootTypes[r.Intn(len(rootTypes))]
 		up := r.Intn(2) == 0
@@ -384,12 +403,18 @@ func reuseDecode(r *sim.Rand) {
 }
 
 func reuseExperiment(name, pkg string, mk func() interface{}, up bool, b1, b2 []byte) {
+	reuseExperimentDir(name, pkg, mk, up, up, b1, b2)
+}
+
+// reuseExperimentDir: the value decoded b1 as a message of direction up1
+// before it decodes b2 as one of direction up.
+func reuseExperimentDir(name, pkg string, mk func() interface{}, up1, up bool, b1, b2 []byte) {
 	used := mk()
 	if pkg != "" {
 		name = typeName(used)
 	}
 	var err1, err2, errF error
-	if quiet(func() { err1 = callUnmarshal(used, up, append([]byte(nil), b1...)) }) || err1 != nil {
+	if quiet(func() { err1 = callUnmarshal(used, up1, append([]byte(nil), b1...)) }) || err1 != nil {
 		return // the first input was not a valid message for this type
 	}
 	fresh := mk()
